@@ -271,7 +271,8 @@ class Executor:
                 raise HarnessError("reference model failed: %r" % (e,))
             ok = True
             for k, st in enumerate(full):
-                if st.dig_out != traj.digs[off + k + 1] or st.t_out != float(traj.states[off + k + 1].time):
+                if st.dig_out != traj.digs[off + k + 1] or \
+                        float(st.t_out).hex() != float(traj.states[off + k + 1].time).hex():
                     ok = False
                     if r._mismatch is None:
                         ref = traj.states[off + k + 1]
